@@ -304,6 +304,8 @@ type docgen struct {
 	injected  int
 	strPool   []string
 	depth     int
+	decorate  func(marker string) string // optional: text appended to every marker (C04: env references)
+	placed    []string                   // decorated markers as placed
 }
 
 var defaultStrPool = []string{
@@ -319,6 +321,11 @@ func (g *docgen) mark() string {
 	g.marker++
 	m := fmt.Sprintf("mk%dq", g.marker)
 	g.markers = append(g.markers, m)
+	if g.decorate != nil {
+		d := g.decorate(m)
+		g.placed = append(g.placed, d)
+		return d
+	}
 	return m
 }
 
